@@ -28,7 +28,8 @@ META = {
         ' Also: the stability test of the standardisation loop spans all passes of an iteration (no late snapshot); conditional constant propagation decides, for all 16 given/omitted combinations, that a depth keyword reaches the parser as given; clean chains in any order are in aliquot_unpacker_regex; option forwarding (dead / swapped / default-mismatched parameters).'
         ' Round 7: the fix-point test watches the list, not its length; joiners across a line break; parse()/preprocess() store no configurable setting (depth given for one call does not leak into the next).'
         ' Round 8: a condition computed once from the component list is not reused across fix-point rounds (stale gate).'
-        ' Round 9: pass_back_halves writes the one-letter component to [i] (the rewritten pair does not trigger the rewrite again); the depth lock-down of Tract.parse (shared with C13).'),
+        ' Round 9: pass_back_halves writes the one-letter component to [i] (the rewritten pair does not trigger the rewrite again); the depth lock-down of Tract.parse (shared with C13).'
+        ' Round 12: constant slices fold, so a table written as slices of QQ_QUARTERS is compared with the geometry.'),
     'families': ['TBL', 'FIXPOINT', 'CONSUME', 'ORDER', 'FORWARD', 'DEADPARAM', 'SIB-DEFAULTS'],
 }
 
